@@ -12,6 +12,7 @@
 #include "axlobs.h"
 
 extern void	scopeBind 	(Stab, AbSyn);
+extern void	scopeBindSkipStep (Stab);
 
 extern void	scobindInitFile		(void);
 extern void	scobindFiniFile		(void);
